@@ -165,7 +165,30 @@ def forest_conformance_jobs(prop, tier):
 def jobs_C03(tier):
     j = sched_catalogue('C03', tier, drv=0) + proto_jobs('C03', tier) + forest_conformance_jobs('C03', tier)
     j += [sjob('C03', 'tree7', 2, 1, drv=1), sjob('C03', 'lower5', 2, 1, drv=2, w=4, ms=4)]
+    j += race_jobs('C03', tier)
     return j
+
+
+def race_jobs(prop, tier):
+    """Engine S with the happens-before race monitor (variant sr: clang TSan instrumentation only, our own vector-clock runtime engines/mcsched/race_rt.h):
+    the same catalogue, every explored execution additionally judged for unordered conflicting accesses to the stored values / row subscripts of L and U.
+    No conformance replay here (that binding is validated by the ASan build of the same jobs)."""
+    out = []
+    for job in sched_catalogue(prop, tier, drv=0, light=True):
+        job = dict(job); job['variant'] = 'sr'; job['cflags'] = ['-DVF_RACE']
+        a = list(job['args'])
+        if tier == 'quick':
+            # quick tier: the jobs that factorize to the end (zero-pivot values, exhausted estimates and user workspaces stay with the ASan build; thorough runs them here too)
+            kv = dict(zip(a[0::2], a[1::2]))
+            if '--f7' in kv or '--f8' in kv or '--lwork' in kv or kv.get('--vk') in ('4', '6'):
+                continue
+        if '--model' in a:
+            k = a.index('--model'); a[k + 1] = '0'
+        else:
+            a += ['--model', '0']
+        job['args'] = a
+        out.append(job)
+    return out
 
 
 def jobs_C04(tier):
@@ -296,7 +319,7 @@ def jobs_C06(tier):
     # K15 (Engine S; added after seeded change C06/1 was missed): two zero-pivot columns met by different threads in either order; in EVERY
     # interleaving info must equal the one-thread result (the first zero-pivot column)
     S6 = 'sforest:12545r'
-    for p in ('sdcz' if tier != 'quick' else 'dz'):
+    for p in 'sdcz':        # all four precisions in the quick tier too: the worker loops are separate translation units (seeded change C06-6 sat in pcgstrf_thread.c only)
         j.append(sjob('C06', S6, 2, 1 if (tier == 'quick' and p != 'd') else 2, prec=p, relax=2, vk=6)); j.append(sjob('C06', 'tree7', 2, 1, prec=p, vk=6))
     j.append(sjob('C06', S6, 3, 1, relax=2, vk=6)); j.append(sjob('C06', 'relax6', 2, 2, relax=3, vk=6)); j.append(sjob('C06', 'two6', 2, 2, vk=6)); j.append(sjob('C06', 'two6', 2, 1, vk=4, relax=2))
     j.append(sjob('C06', 'chain4', 2, 2, vk=4)); j.append(sjob('C06', 'dense4', 2, 1, vk=4, ms=1)); j.append(sjob('C06', 'lower5', 2, 1, vk=6, w=4, ms=4))
@@ -427,6 +450,9 @@ def jobs_hist(prop, tier):
             for n in (1, 2, 3):
                 for vk, salt in ((0, 0), (4, 1)):
                     j += seq('C17', 'q', p, n, 'quick', vkind=vk, extra=['--salt', str(salt)], slices=4)
+        # expert driver over trans x storage x fact (incl. FACTORED re-entry) x equed, all precisions (seeded change C17-6: leak only for row-stored A re-entered with FACTORED, complex single only)
+        for p in 'sdcz':
+            j += xjob('C17', p, 'pat', 2, 'full', 1); j += xjob('C17', p, 'pat', 3, 'quick', 4)
         # (all 4x4 patterns were measured: the sweep does not finish within 25 minutes on 16 cores because of the leaked blocks of the known get_perm_c finding; not registered)
     return j
 
@@ -590,10 +616,11 @@ SPECS = {
             'assumptions': ['fill bound = values actually stored per block of the Cholesky prediction (relax=1) and the slot monitor on every allocation (all relax)'],
             'deadline': {'quick': 600, 'thorough': 3600}},
     'C03': {'jobs': jobs_C03, 'level': 'model_checking',
-            'rule': 'stateless preemption-bounded DFS (CHESS style) over ALL interleavings of the hooked synchronisation/protocol points of the real factorization, per catalogue job (shape x threads x bound x options); states = distinct global event sequences, transitions = scheduler steps; in every execution: event monitors (consume-before-release/pivot, update twice, write-while-read, I1/I2/I2b on the real scheduler structures), ASan, and the C02 residual of the returned factors',
+            'rule': 'stateless preemption-bounded DFS (CHESS style) over ALL interleavings of the hooked synchronisation/protocol points of the real factorization, per catalogue job (shape x threads x bound x options); states = distinct global event sequences, transitions = scheduler steps; in every execution: event monitors (consume-before-release/pivot, update twice, write-while-read, I1/I2/I2b on the real scheduler structures), ASan, and the C02 residual of the returned factors; the same catalogue is explored a second time in a build with clang thread-sanitizer INSTRUMENTATION only, linked against our own vector-clock runtime (engines/mcsched/race_rt.h) under the same baton scheduler: every load/store of the stored values and row subscripts of L and U (lusup, lsub, ucol, usub) in every explored execution is checked for an unordered conflicting access by another thread (happens-before edges: column flag spin_locks[], panel state, tasks_remain, ispruned[] publication, mutexes, create/join), so a window between two scheduling points is judged too (race_data_accesses / race_sync_accesses / race_reports)',
             'assumptions': ['sequential consistency; neither store buffering nor compiler reordering around the volatile flag store is modelled',
                             'n <= 8 harnesses, preemption bound as stated per job (bound completed is reported per job)',
-                            'waiting is modelled as blocking at the flag test; fruitless polls of the task queue park the poller until the queue changes'],
+                            'waiting is modelled as blocking at the flag test; fruitless polls of the task queue park the poller until the queue changes',
+                            'race monitor: data ranges are the L/U value and subscript arrays only (column metadata xlsub/xlusup/supno/perm_r is racy by design in places and judged by the event monitors and the numeric oracles); a release joins into the clock of the synchronisation cell (over-approximated release sequences: may hide, never invents a report); memcpy/memset inside the library are not instrumented by clang 14'],
             'deadline': {'quick': 900, 'thorough': 5400}},
     'C04': {'jobs': jobs_C04, 'level': 'model_checking',
             'rule': 'same exploration as C03; in every execution: deadlock (no enabled thread) / runaway detection by the scheduler, exactly-once accounting of panels, columns, pivots and releases, tasks_remain == untaken panels at every scheduler return, queue bounds, every created thread joined',
@@ -676,7 +703,7 @@ def evidence(prop, tier, seed, spec, stats, samples, per_job, complete, wall, n_
     cov['samples'] = samples if samples else ['(no sample emitted)']
     cov['exhaustive'] = bool(complete)
     for k in ('jobs_cut_by_deadline', 'judged', 'skipped', 'matrices', 'matrices_total', 'matrices_outside_hypothesis', 'info0', 'singular_reports', 'deaths',
-              'executions', 'choice_points', 'pruned', 'schedules', 'max_preemptions_completed', 'histories', 'faults', 'edges_replayed'):
+              'executions', 'choice_points', 'pruned', 'race_monitor', 'race_data_accesses', 'race_sync_accesses', 'race_reports', 'schedules', 'max_preemptions_completed', 'histories', 'faults', 'edges_replayed'):
         if k in stats:
             cov[k] = int(stats[k])
     cov['jobs'] = len(per_job)
